@@ -14,6 +14,13 @@
 //	                        Subscribe / cancel / Close / Poll calls on one client object
 //	                        (Subscribe again after Close or cancellation, Close twice,
 //	                        Close or Poll before any Subscribe, cancelled contexts).
+//	        part "entry"    life.go + entry.go: the lifetime machinery aimed at the OTHER entry
+//	                        points of the client (Poll, Impl, Synced, Leaves as steps issued on
+//	                        their own goroutines) over transports whose poll and subscription
+//	                        writes block (Attempt.Poll, Sub "park", SubDelay); entry.go also has
+//	                        the shapes of the caller's context (deadline, parent deadline,
+//	                        values; Scenario.Ctx, LifeOp.Ctx) and the guarded bubble that turns
+//	                        a lock held across a blocking call into a verdict.
 //	        query.go        the KIND of query of every Subscribe call of parts "random" and
 //	                        "lifetime" (Stream / Poll / Once / Unknown type, the ways
 //	                        Query.Validate rejects a query): calls the client documents to
@@ -78,9 +85,15 @@ type Attempt struct {
 	// notices the cancellation).
 	Conn      string `json:"conn"`
 	ConnDelay int    `json:"conn_delay,omitempty"`
-	// Sub: "ok" or "err" (Impl.Subscribe fails).
-	Sub  string `json:"sub"`
-	Msgs []Msg  `json:"msgs,omitempty"`
+	// Sub: "ok", "err" (Impl.Subscribe fails) or "park" (Impl.Subscribe blocks,
+	// as the write of the subscription request does when the peer has stopped
+	// reading, until its context ends or the Impl is closed, and then fails; a
+	// deaf transport cannot park: there "park" is read as "ok"). SubDelay: the
+	// call takes that many units first (a deaf transport cannot be interrupted
+	// meanwhile, the others give up when their context ends).
+	Sub      string `json:"sub"`
+	SubDelay int    `json:"sub_delay,omitempty"`
+	Msgs     []Msg  `json:"msgs,omitempty"`
 	// End is what Recv does after the last message, EndDelay units later:
 	// "err", "eof" (io.EOF), "stop" (client.ErrStopReading) or "block" (blocks
 	// until the Impl is closed or its context cancelled).
@@ -95,6 +108,44 @@ type Attempt struct {
 	SubErr   string `json:"sub_err,omitempty"`
 	EndErr   string `json:"end_err,omitempty"`
 	CloseErr string `json:"close_err,omitempty"`
+	// Poll is what Impl.Poll (the write of a poll request) does on the transport
+	// of this attempt: "" (accepted at once), "err" (fails at once), "delay"
+	// (accepted after PollDelay units unless the transport is closed or its
+	// context ends first), "block" (the peer has stopped reading: blocks until
+	// the transport is closed or its context ends, then fails), "deaf" (the
+	// same, but only closing the transport releases it). On a closed transport
+	// every Poll fails at once.
+	Poll      string `json:"poll,omitempty"`
+	PollDelay int    `json:"poll_delay,omitempty"`
+}
+
+// Shapes of the caller's context (Scenario.Ctx, LifeOp.Ctx): HOW the context a
+// Subscribe call is given comes to its end.
+//
+//	""                a cancel function (context.WithCancel)
+//	"deadline"        its own deadline passes (context.WithDeadline); Err() is DeadlineExceeded
+//	"parent-deadline" the deadline of its PARENT passes; the context itself is a WithCancel child
+//	"value-deadline"  deadline as above, wrapped in context.WithValue
+//	"far-deadline"    carries a deadline that is never reached AND is ended by its cancel function
+//	"value"           carries a value and is ended by its cancel function
+//	"parent-cancel"   a WithTimeout child (deadline never reached) of a parent whose cancel function is called
+//
+// The first three after "" end by themselves at the chosen instant; the others
+// when the harness calls the cancel function.
+var ctxKinds = []string{"", "deadline", "parent-deadline", "value-deadline", "far-deadline", "value", "parent-cancel"}
+
+func knownCtxKind(k string) bool {
+	for _, c := range ctxKinds {
+		if c == k {
+			return true
+		}
+	}
+	return false
+}
+
+// ctxSelfEnding: the context ends by a deadline, not by a cancel function.
+func ctxSelfEnding(k string) bool {
+	return k == "deadline" || k == "parent-deadline" || k == "value-deadline"
 }
 
 // Scenario is one case of half A.
@@ -130,8 +181,12 @@ type Scenario struct {
 	// action; StopAt < SubAt means the client is closed (or the context
 	// cancelled) before Subscribe is called.
 	SubAt  int    `json:"sub_at"`
-	Stop   string `json:"stop"` // "close" | "cancel"
+	Stop   string `json:"stop"` // "close" | "cancel" (= the caller's context ends, in the way Ctx says)
 	StopAt int    `json:"stop_at"`
+	// Ctx is the shape of the caller's context (ctxKinds). With Stop "cancel" it
+	// ends at the stop instant - by its deadline or by a cancel function; with
+	// Stop "close" a deadline it carries is never reached.
+	Ctx string `json:"ctx,omitempty"`
 	// Target is informational (what the generator aimed StopAt at).
 	Target string `json:"target,omitempty"`
 }
@@ -151,7 +206,7 @@ func (a Attempt) deafLife() time.Duration {
 	if a.Conn != "deaf" {
 		return 0
 	}
-	n := a.ConnDelay + a.EndDelay
+	n := a.ConnDelay + a.SubDelay + a.EndDelay
 	for _, m := range a.Msgs {
 		n += m.Delay
 	}
@@ -198,6 +253,9 @@ func (sc *Scenario) validate() error {
 	if !knownQueryKind(sc.Query) {
 		return fmt.Errorf("query kind %q", sc.Query)
 	}
+	if !knownCtxKind(sc.Ctx) {
+		return fmt.Errorf("context shape %q", sc.Ctx)
+	}
 	if len(sc.Attempts) > 64 {
 		return fmt.Errorf("too many attempts")
 	}
@@ -208,9 +266,17 @@ func (sc *Scenario) validate() error {
 			return fmt.Errorf("attempt %d conn %q", i, a.Conn)
 		}
 		switch a.Sub {
-		case "ok", "err":
+		case "ok", "err", "park":
 		default:
 			return fmt.Errorf("attempt %d sub %q", i, a.Sub)
+		}
+		switch a.Poll {
+		case "", "err", "delay", "block", "deaf":
+		default:
+			return fmt.Errorf("attempt %d poll %q", i, a.Poll)
+		}
+		if a.SubDelay < 0 || a.PollDelay < 0 || a.SubDelay > 100000 || a.PollDelay > 100000 {
+			return fmt.Errorf("attempt %d: sub/poll delay", i)
 		}
 		switch a.End {
 		case "err", "eof", "stop", "block":
@@ -241,7 +307,7 @@ func (sc *Scenario) validate() error {
 		if sc.StopAt < sc.SubAt {
 			return fmt.Errorf("plain client stopped before Subscribe")
 		}
-		if len(sc.Attempts) < 1 || sc.Attempts[0].Conn != "ok" || sc.Attempts[0].ConnDelay != 0 || sc.Attempts[0].Sub != "ok" {
+		if len(sc.Attempts) < 1 || sc.Attempts[0].Conn != "ok" || sc.Attempts[0].ConnDelay != 0 || sc.Attempts[0].Sub != "ok" || sc.Attempts[0].SubDelay != 0 {
 			return fmt.Errorf("plain client needs an attempt that connects at once")
 		}
 	} else if sc.Pending != 0 {
@@ -309,8 +375,14 @@ func (sc *Scenario) predict(n int) []span {
 		}
 		s.conn = t + d
 		cur := s.conn
+		if !failed {
+			cur += time.Duration(a.SubDelay) * Unit
+		}
+		park := !failed && a.Sub == "park" && a.Conn != "deaf"
 		switch {
-		case failed || a.Sub != "ok":
+		case park:
+			s.first, s.end, s.blocks = cur, cur, true
+		case failed || a.Sub == "err":
 			s.first, s.end = cur, cur
 		default:
 			s.connected = true
